@@ -2,6 +2,7 @@ package c06
 
 import (
 	"fmt"
+	"regexp"
 
 	"pgregory.net/rapid"
 
@@ -13,6 +14,7 @@ import (
 type exclusions struct {
 	destructure bool // C06-destructured-slot-props-empty: `="{ a, b }"` whose content reads a or b
 	frozen      bool // C06-include-in-slot-content-frozen: include tag in content that fills a slot more than once
+	tmplRoot    bool // C06-template-root-evaluated-twice: v-if on scoped variables when a component has a <template> root
 	layoutLeak  bool // C06-layout-leaks-instance-slot-content: layout instance lacking a name the page supplies somewhere
 }
 
@@ -50,7 +52,12 @@ type sv struct {
 }
 
 type builder struct {
-	ch   chooser
+	ch chooser
+	// pageIfOnly (open finding C06-template-root-evaluated-twice, case with a <template>-rooted
+	// component): v-if conditions are only generated on variables that are still in scope when the
+	// component's output is evaluated the second time, i.e. page data and page loop variables.
+	pageIfOnly bool
+	dropped    int // v-if candidates removed by pageIfOnly
 	ids  int
 	lits int
 	vars int
@@ -85,9 +92,17 @@ func printables(scope []sv) []sv {
 	return out
 }
 
-func bools(scope []sv) []sv {
+var pageVar = regexp.MustCompile(`^(pt|pf|prec2?|pr[0-9]+)$`)
+
+func (b *builder) bools(scope []sv) []sv {
 	var out []sv
 	for _, e := range scope {
+		if b.pageIfOnly && !pageVar.MatchString(e.x) {
+			if e.t == "b" || e.t == "m" {
+				b.dropped++
+			}
+			continue
+		}
 		switch e.t {
 		case "b":
 			out = append(out, e)
@@ -141,7 +156,7 @@ func (b *builder) item(p string, scope []sv, depth int, bare bool) Node {
 	if bare {
 		kinds = append(kinds, "text")
 	}
-	if len(bools(scope)) > 0 {
+	if len(b.bools(scope)) > 0 {
 		kinds = append(kinds, "if")
 	}
 	if len(lists(scope)) > 0 {
@@ -154,7 +169,7 @@ func (b *builder) item(p string, scope []sv, depth int, bare bool) Node {
 	case "text":
 		return b.text(scope)
 	case "if":
-		return Node{K: "el", Tag: tags[b.ch.n("tag", len(tags))], M: b.id(p), If: pick(b, "cond", bools(scope)).x, Kids: []Node{b.text(scope)}}
+		return Node{K: "el", Tag: tags[b.ch.n("tag", len(tags))], M: b.id(p), If: pick(b, "cond", b.bools(scope)).x, Kids: []Node{b.text(scope)}}
 	case "for":
 		l := pick(b, "list", lists(scope))
 		idx, it := b.fresh(p+"i"), b.fresh(p+"e")
